@@ -903,3 +903,61 @@ Proof.
     apply negb_true_iff in K. now destruct (must_raise_false_parts fo _ K). }
   exact (known_raises_value_error fo OL start stop factor V api c j take fuel draws K Hap).
 Qed.
+
+(* ---- the default count is minimal: stop is reached by the last value only ---------------------- *)
+Section DefaultCountMinimal.
+  Context {F : Type} (fo : fops F) (OL : order_laws fo) (GL : grow_laws fo).
+  Local Notation le x y := (fleb fo x y = true).
+  Local Notation lt x y := (fltb fo x y = true).
+  Local Notation zero := (f0 fo).
+
+  Fixpoint all_but_last_below (stop : F) (l : list F) : bool :=
+    match l with
+    | [] => true
+    | x :: r => match r with [] => true | _ :: _ => fltb fo x stop && all_but_last_below stop r end
+    end.
+
+  Variables start stop factor : F.
+  Hypothesis Hvalid : valid fo start stop factor = true.
+
+  Lemma default_count_minimal : forall fuel u n m, le zero u ->
+    default_count fo fuel stop factor u n = DCOk m ->
+    all_but_last_below stop (ideal fo stop factor (fmin fo u stop) (Z.to_nat (m - n + 1))) = true.
+  Proof.
+    induction fuel as [|k IH]; intros u n m Hu H; simpl in H; [discriminate|].
+    destruct (fltb fo u stop) eqn:L.
+    - set (nxt := if negb (feqb fo u zero) then fmul fo u factor else f1 fo) in *.
+      destruct (fltb fo u nxt) eqn:G; simpl in H; [|discriminate].
+      assert (Hn0 : le zero nxt).
+      { eapply (leb_trans fo OL); eauto. apply (lt_le fo OL), G. }
+      destruct (default_count_ok fo OL start stop factor Hvalid k nxt (n + 1)%Z m Hn0 H) as [Hle _].
+      pose proof (IH nxt (n + 1)%Z m Hn0 H) as R.
+      replace (Z.to_nat (m - n + 1)) with (S (Z.to_nat (m - (n + 1) + 1))) by lia.
+      rewrite (ideal_S fo stop factor), (fmin_lt_l fo OL stop u L), (next_of_count_step fo stop factor u).
+      fold nxt.
+      destruct (Z.to_nat (m - (n + 1) + 1)) as [|k'] eqn:K; [lia|].
+      rewrite (ideal_S fo stop factor) in *. cbn [all_but_last_below]. rewrite L. exact R.
+    - inversion H; subst m. replace (Z.to_nat (n - n + 1)) with 1%nat by lia. reflexivity.
+  Qed.
+
+  Theorem default_count_stop_only_last : forall j take fuel draws,
+    jitter_off fo j = true ->
+    let o := run fo (mkP ApiList start stop CNone factor j take) fuel draws in
+    o_end o = EStop -> all_but_last_below stop (o_vals o) = true.
+  Proof.
+    intros j take fuel draws Off o E. subst o. unfold run in *.
+    cbn [p_api p_start p_stop p_count p_factor p_jitter p_take] in *.
+    rewrite (prepare_valid fo OL fuel start stop factor CNone j Hvalid) in *.
+    destruct (valid_parts fo start stop factor Hvalid) as (H0 & Hss & _).
+    destruct (default_count fo fuel stop factor start 1) as [m| |] eqn:D; try discriminate.
+    unfold after_count in *. destruct (count_neg (NFin m)); [discriminate|].
+    unfold jitter_valid in *. rewrite Off in *. simpl orb in *. cbv iota in *. simpl negb in *.
+    unfold produce in *. cbn [p_start p_stop p_factor p_jitter] in *.
+    rewrite (gen_loop_plain fo OL GL start stop factor Hvalid (Z.to_nat m) j start draws
+               (Inv_start fo start stop factor Hvalid)) in *.
+    cbn [o_vals].
+    pose proof (default_count_minimal fuel start 1%Z m H0 D) as R.
+    replace (fmin fo start stop) with start in R by (unfold fmin; now rewrite Hss).
+    replace (m - 1 + 1)%Z with m in R by lia. exact R.
+  Qed.
+End DefaultCountMinimal.
